@@ -244,10 +244,13 @@ def run_step(seed=0, tier="quick"):
 
     res = {"ok": True, "cases": 0, "samples": [], "worst_rel_err": 0.0, "kernel_calls": 0,
            "name": "2D Navier-Stokes step vs Model/Prog2D (split at rfft/irfft)", "configs": []}
-    precisions = [np.float64] if tier == "quick" else [np.float64, np.float32]
+    precisions = [np.float64, np.float32]
     for real_t in precisions:
         requests, expect, traces, labels = [], [], [], []
-        for ci, (forcing, fs, w) in enumerate(step_configs(tier)):
+        cfgs = list(enumerate(step_configs(tier)))
+        if tier == "quick" and real_t == np.float32:
+            cfgs = [c for c in cfgs if c[1][0]][1:4]     # single precision in the quick tier: three configurations with forcing
+        for ci, (forcing, fs, w) in cfgs:
             r = impl.rng(seed, "step2d", ci)
             lo = max(2 * w + 1, 6)
             ny, nx = int(r.integers(lo, lo + 4)), int(r.integers(lo, lo + 4))
